@@ -140,6 +140,27 @@ func TestC01(t *testing.T) {
 		if overridden {
 			cls = append(cls, "initializer-overridden-by-caller")
 		}
+		if rapid.IntRange(0, 3).Draw(rt, "strayEntries") == 0 {
+			// the caller's map may hold entries that name no graph input: a weight of the model, an
+			// intermediate value, something unrelated. The values of a node's inputs are the graph
+			// inputs, initializers and earlier results - such entries change nothing.
+			var cands []gv
+			for _, v := range gg.pool {
+				isInput := gg.shadowed[v.name]
+				for _, in := range gg.inputs {
+					isInput = isInput || in.name == v.name
+				}
+				if !isInput && v.name != "" {
+					cands = append(cands, v)
+				}
+			}
+			for k := rapid.IntRange(1, 2).Draw(rt, "nStray"); k > 0 && len(cands) > 0; k-- {
+				v := rapid.SampledFrom(cands).Draw(rt, "strayName")
+				feed[v.name] = mkT(v.shape, smallF32s(rt, prod(v.shape), 2, "stray"))
+			}
+			feed["no_such_value"] = mkT([]int{2}, []float32{7, 8})
+			cls = append(cls, "stray-entries-in-the-callers-map")
+		}
 		cls = append(cls, fmt.Sprintf("nodes-%d", len(gg.nodes)))
 		ev.Case("C01", gg.String(), c01Nontrivial(gg), cls...)
 
